@@ -213,11 +213,20 @@ class Enum:
             if t:
                 out.append(t)
         out.append("pub enum E%s%s {" % (self.decl_generics(), self.where()))
-        for v in self.variants:
+        foreign = ["#[doc(hidden)]", "/// a doc comment", "#[allow(dead_code)]", "#[cfg(all())]", "#[doc = \"x\"] #[allow(unused)]"]
+        for vi, v in enumerate(self.variants):
+            # attributes of other tools on a variant (docs, lints, cfg) - before, between or after derive_more's own -
+            # leave it an ordinary variant; chosen deterministically from the declaration so that reruns agree
+            h = int(common.digest("%s|%d|%s" % (v.name, vi, ",".join(self.derives))), 16)
+            fa = foreign[h % len(foreign)] if h % 5 < 2 else None
+            if fa and h % 2:
+                out.append("    " + fa)
             for d in self.derives:
                 t = self.attr_text(DERIVE_ATTR[d], v.attr.get(DERIVE_ATTR[d]))
                 if t:
                     out.append("    " + t)
+            if fa and not h % 2:
+                out.append("    " + fa)
             if v.kind == "unit":
                 out.append("    %s," % v.ident)
             elif v.kind == "tuple":
